@@ -71,6 +71,10 @@ func (monC03) Step(h *History, st *Step) []Violation {
 		r := rec.Ref
 		a := tr.Pre
 		f := flowsOfSettlement(st, a)
+		// the clearing price the auction records is the reference clearing price
+		if pa := st.Post.Auction(a.ID); pa != nil && r.Sold && r.PStarM != nil && (pa.MatchedPriceM == nil || pa.MatchedPriceM.Cmp(r.PStarM) != 0) {
+			vs = append(vs, viol("C03/clearing-price-recorded", "auction %d settled: the recorded clearing price is %s, the lowest qualifying bid price is %s", a.ID, mOrNil(pa.MatchedPriceM), mstr(r.PStarM)))
+		}
 		labelBook(h, "c03", r)
 		h.Label("c03:settlement")
 		total := new(big.Int)
@@ -283,6 +287,7 @@ func CfgC04() PropCfg {
 	w.PlaceBid, w.ModifyBid, w.Block = 40, 14, 16
 	w.PerturbPct = 4
 	w.MaxAuctions = 3
+	w.PoorPct = 30 // bidders who cannot pay what a modification would cost
 	w.FaultBlock = 3 // a refund that fails must fail the block, not be skipped
 	return PropCfg{ID: "C04", Weights: w, MinOps: 12, MaxOps: 60, DrivePct: 95,
 		New: func() Monitor { return monC04{} },
@@ -298,8 +303,23 @@ func CfgC04() PropCfg {
 // ---------------------------------------------------------------------------------------------
 type monC05 struct{}
 
+// rejectedAllowListCall: a keeper-level allow-list call that returned an error must not have changed
+// what the allow-list grants - even when the calling module ignores the error and its transaction
+// goes on (NoRollback): otherwise the cap "granted" is one the module itself refused.
+func rejectedAllowListCall(prop string, st *Step) []Violation {
+	if (st.Op.Kind == OpAddAllowed || st.Op.Kind == OpUpdateAllowed) && !st.Res.OK && st.Res.Panic == "" {
+		if pre, post := st.Pre.ModuleCanon(true), st.Post.ModuleCanon(true); pre != post {
+			return []Violation{viol(prop+"/rejected-allow-list-call-changed-state", "%s returned an error (%s) but the module state changed:\n%s", st.Op.String(), firstLine(st.Res.Err), diffLines(pre, post))}
+		}
+	}
+	return nil
+}
+
 func (monC05) Step(h *History, st *Step) []Violation {
 	var vs []Violation
+	if v := rejectedAllowListCall("C05", st); v != nil {
+		return v
+	}
 	// fixed price: the cumulative quantity of a bidder never exceeds the cap of the moment
 	if st.Op.Kind == OpPlaceBid && st.Res.OK {
 		for _, b := range st.Post.BidsOf(st.Op.Auction) {
